@@ -50,7 +50,9 @@ func checkC06(c *Ctx) {
 			bk := fl.K.Key(complitField(e.Alloc, "Batch"))
 			facts := fl.At(e.Instr)
 			okBatch := commitBlk != "" && bk == "(*hs.Block).Commands("+commitBlk+")"
-			okOrder := errNilOf(facts, func(k string) bool { return strings.HasPrefix(k, kCommitInner) && strings.Contains(k, kBlockParent+commitBlk+")") }) &&
+			okOrder := errNilOf(facts, func(k string) bool {
+				return strings.HasPrefix(k, kCommitInner) && strings.Contains(k, kBlockParent+commitBlk+")")
+			}) &&
 				commitEmit != nil && precedes(commitEmit, e.Instr)
 			c.Check(okBatch && okOrder, "C06.1", "commitInner: execute the committed block's commands, parent first", p.InstrPos(e.Instr),
 				"ExecuteEvent{Batch: block.Commands()} follows the CommitEvent of the same block and the successful recursive commit of its parent",
@@ -253,7 +255,9 @@ func checkC06(c *Ctx) {
 			return cal != nil && cal.String() == "(*"+modPath+"/internal/proto/clientpb.CommandCache).Get"
 		}) {
 			n++
-			ok := errNilOf(fcp.At(s), func(k string) bool { return strings.HasPrefix(k, "(*hs/protocol/consensus.Proposer).markProposed(p0, ") })
+			ok := errNilOf(fcp.At(s), func(k string) bool {
+				return strings.HasPrefix(k, "(*hs/protocol/consensus.Proposer).markProposed(p0, ")
+			})
 			c.Check(ok, "C06.7", "CreateProposal: markProposed before CommandCache.Get", p.Pos(s.Pos()),
 				"a batch is taken only after markProposed succeeded", "Get reachable without a successful markProposed")
 		}
